@@ -32,6 +32,10 @@ CONSTANTS Issuers,       \* subset of {"trusted","trusted_inter","otherca","self
           Modes,         \* subset of {"receptor","dns","dns_noname"}
           StreamSrcs,    \* set of node ids (token sequences) for the stream-listener family
           MaxTick,       \* the abstract clock of the "clock" family runs over 0..MaxTick
+          KF_LookupMutatesStored, \* FALSE: the code.  TRUE: the counter-example variant in which GetClientTLSConfig applies the
+                         \* name-mode switch to the STORED named configuration before cloning it: the first receptor-mode lookup leaves
+                         \* InsecureSkipVerify set on the stored object and every later lookup of that name returns a configuration
+                         \* without verifier; it must FAIL LookupsIndependent (TLSVerify_variants.cfg)
           KF_TimeFrozenAtCreation, \* FALSE: the code.  TRUE: the counter-example variant in which the verifier reads the clock
                          \* when it is CREATED (x509.VerifyOptions / time.Now() hoisted out of the per-handshake closure) and
                          \* judges every later certificate against that instant; it must FAIL ValidityJudgedAtHandshake
@@ -240,13 +244,42 @@ ClockVec(ro, mo, tc, w, hs) ==
 ClockVectors ==
   UNION { { ClockVec(ro, mo, tc, w, hs) : ro \in Roles, mo \in Modes, w \in Windows, hs \in HandshakeTimes(tc) } : tc \in Ticks }
 
-AllVectors == TableVectors \cup StreamVectors \cup SeqVectors \cup ClockVectors
+\* ---------------------------------------------------------------- lookups of a named client configuration (family "lookup")
+\* One node holds one named tls-client configuration (SetClientTLSConfig) and looks it up repeatedly
+\* (GetClientTLSConfig): workceptor's validation lookup with the dummy host "testhost", receptor-name-mode lookups for
+\* streams to a node, DNS-mode lookups for backend peers.  Lookups are independent: the stored configuration is never
+\* changed by a lookup, so the k-th lookup judges every certificate exactly like a first lookup with the same
+\* arguments.  After every lookup each certificate class is presented to the configuration it returned.
+LookupCerts == {"good", "selfsigned", "expired", "othername", "unpinned"}
+\*   good: trusted, valid, names the expected id E (receptor name and dNSName), the pinned one when pins are configured
+\*   unpinned: like good but another certificate; the others differ from good in one condition each
+LkR == [mode |-> "receptor", name |-> "E"]
+LkD == [mode |-> "dns", name |-> "E"]
+LkT == [mode |-> "receptor", name |-> "testhost"]       \* no certificate names "testhost"
+LookupSeqs == {<<LkR, LkR>>, <<LkR, LkD>>, <<LkD, LkR>>, <<LkD, LkD>>, <<LkT, LkR>>, <<LkT, LkD>>, <<LkD, LkT, LkD>>, <<LkR, LkD, LkR>>}
+LookupFailed(l, c, pinned) ==
+  (IF c = "selfsigned" THEN {"chain"} ELSE {}) \cup (IF c = "expired" THEN {"time"} ELSE {})
+  \cup (IF c = "othername" \/ l.name = "testhost" THEN {"name"} ELSE {}) \cup (IF c = "unpinned" /\ pinned THEN {"pin"} ELSE {})
+LookupAccept(l, c, pinned) == LookupFailed(l, c, pinned) = {}
+Poisoned(ls, k) == KF_LookupMutatesStored /\ \E j \in 1..(k - 1) : ls[j].mode = "receptor"
+LookupVec(pinned, ls) ==
+  [fam |-> "lookup", issuer |-> "-", validity |-> "-", usage |-> "-", names |-> "-", pins |-> <<>>, role |-> "server", mode |-> "-",
+   src |-> <<>>, namekind |-> "-", certnames |-> <<>>, seqpins |-> <<>>, calls |-> <<>>,
+   lookup |-> [pinned |-> pinned,
+               steps |-> LET S(k) == [mode |-> ls[k].mode, name |-> ls[k].name,
+                                      accept |-> [c \in LookupCerts |-> Poisoned(ls, k) \/ LookupAccept(ls[k], c, pinned)]]
+                         IN IF Len(ls) = 2 THEN <<S(1), S(2)>> ELSE <<S(1), S(2), S(3)>>],
+   conds |-> [chain |-> TRUE, time |-> TRUE, usage |-> TRUE, pin |-> TRUE, name |-> TRUE], nfail |-> 0, only |-> "-",
+   pins_wellformed |-> TRUE, pins_configurable |-> TRUE, expect |-> [prop |-> TRUE, code |-> TRUE]]
+LookupVectors == { LookupVec(pinned, ls) : pinned \in BOOLEAN, ls \in LookupSeqs }
+
+AllVectors == TableVectors \cup StreamVectors \cup SeqVectors \cup ClockVectors \cup LookupVectors
 
 \* ---------------------------------------------------------------- state machine: one state per vector
 VARIABLE vec
 \* the families are disjoint (field fam); enumerating them one by one spares TLC the element-wise
 \* de-duplication of a union of lazily enumerated sets (measured: 140 s instead of 30 s)
-Init == vec \in TableVectors \/ vec \in StreamVectors \/ vec \in SeqVectors \/ vec \in ClockVectors
+Init == vec \in TableVectors \/ vec \in StreamVectors \/ vec \in SeqVectors \/ vec \in ClockVectors \/ vec \in LookupVectors
 Next == UNCHANGED vec
 Spec == Init /\ [][Next]_vec
 
@@ -304,6 +337,18 @@ PinnedThenUnpinnedRefused ==
   IsSeq /\ vec.seqpins # <<>> =>
      \A k \in 2..Len(vec.calls) : vec.calls[k - 1].accept /\ ~vec.calls[k].pinok => ~vec.calls[k].accept
 
+\* lookups of a named configuration are independent: the k-th lookup judges like a first one with the same arguments,
+\* and equal lookups give equal verdicts wherever they stand in the sequence
+IsLookup == vec.fam = "lookup"
+LookupsIndependent ==
+  IsLookup => LET st == vec.lookup.steps IN
+     /\ \A k \in 1..Len(st) : \A c \in LookupCerts :
+           st[k].accept[c] = LookupAccept([mode |-> st[k].mode, name |-> st[k].name], c, vec.lookup.pinned)
+     /\ \A j, k \in 1..Len(st) : st[j].mode = st[k].mode /\ st[j].name = st[k].name => st[j].accept = st[k].accept
+\* whatever was looked up before, a configuration handed out never accepts a self-signed or an expired certificate
+LaterLookupStillVerifies ==
+  IsLookup => \A k \in 1..Len(vec.lookup.steps) : ~vec.lookup.steps[k].accept["selfsigned"] /\ ~vec.lookup.steps[k].accept["expired"]
+
 \* validity is judged against the clock at the handshake, whenever the verifier was created
 IsClock == vec.fam = "clock"
 ValidityJudgedAtHandshake ==
@@ -335,6 +380,10 @@ W_NoUnpinnedThenPinned == ~(IsSeq /\ Len(vec.calls) >= 2 /\ vec.calls[1].otherok
 W_NoTwoAlgs            == ~(IsSeq /\ Len(vec.seqpins) = 2 /\ vec.seqpins[1].of # vec.seqpins[2].of
                               /\ Len(vec.calls) = 3 /\ vec.calls[1].accept /\ vec.calls[2].accept
                               /\ vec.calls[1].cert # vec.calls[2].cert /\ ~vec.calls[3].accept /\ vec.calls[3].otherok)
+W_NoLookupAfterReceptor == ~(IsLookup /\ vec.lookup.steps[1].mode = "receptor" /\ vec.lookup.steps[2].mode = "dns"
+                               /\ vec.lookup.steps[2].accept["good"] /\ ~vec.lookup.steps[2].accept["othername"])
+W_NoLookupAfterTesthost == ~(IsLookup /\ vec.lookup.steps[1].name = "testhost" /\ ~vec.lookup.steps[1].accept["good"]
+                               /\ vec.lookup.steps[2].accept["good"] /\ vec.lookup.pinned /\ ~vec.lookup.steps[2].accept["unpinned"])
 W_NoExpiresWhileAlive == ~(IsClock /\ Len(vec.clock.hs) = 2 /\ vec.clock.hs[1].accept
                              /\ vec.clock.hs[2].class = "valid_at_creation_expired_at_handshake" /\ ~vec.clock.hs[2].accept)
 W_NoBecomesValid      == ~(IsClock /\ Len(vec.clock.hs) = 2 /\ ~vec.clock.hs[1].accept
@@ -346,5 +395,5 @@ W_NoColonPrefixRefused == ~(IsStream /\ HasColon(vec.src) /\ vec.namekind = "cod
 \* ---------------------------------------------------------------- export
 ASSUME NameSets \subseteq NameSetUniverse
 ASSUME \A p \in PinLists : Range(p) \subseteq PinKinds
-ASSUME DumpFile = "" \/ ndJsonSerialize(DumpFile, SetToSeq(TableVectors) \o SetToSeq(StreamVectors) \o SetToSeq(SeqVectors) \o SetToSeq(ClockVectors))
+ASSUME DumpFile = "" \/ ndJsonSerialize(DumpFile, SetToSeq(TableVectors) \o SetToSeq(StreamVectors) \o SetToSeq(SeqVectors) \o SetToSeq(ClockVectors) \o SetToSeq(LookupVectors))
 =============================================================================
